@@ -481,7 +481,7 @@ T["gsl_sf_hyperg_2F1"] = _canon(lambda a: P("2F1", a[0], a[1], a[2], a[3]))
 def canon(e):
     """rewrite GSL primitive applications into canonical transcendentals / closed forms"""
     op = e[0]
-    if op in ("c", "a", "nan", "unset", "err"):
+    if op in ("c", "a", "nan", "unset", "err", "glob"):
         return e
     if op == "prim":
         args = tuple(canon(x) for x in e[2])
@@ -605,3 +605,30 @@ def _w0_coef(k):
 
 
 T["W0"]["series"] = _series_at0(_w0_coef)
+
+
+def _ell_inc_series(half):
+    """F(phi, k) (half = -1/2) or E(phi, k) (half = +1/2) as a series in k at k = 0 for constant phi:
+    sum_m binom(half, m) (-1)^m k^(2m) I_m(phi),  I_m = int_0^phi sin^(2m),  2m I_m = (2m - 1) I_(m-1) - sin^(2m-1) cos"""
+    def f(args):
+        from fractions import Fraction
+        from . import gslseries as GS
+        p0, pu = args[0].split()
+        k0, ku = args[1].split()
+        if not pu.is_zero() or k0 != 0:
+            raise GS.SeriesFail("series only in k at 0 for constant phi")
+        phi = float(p0)
+        sn, cs = Fraction(math.sin(phi)), Fraction(math.cos(phi))
+        I = [Fraction(phi)]
+        for m in range(1, GS.N // 2 + 2):
+            I.append((Fraction(2 * m - 1) * I[m - 1] - sn ** (2 * m - 1) * cs) / (2 * m))
+        b = GS._binom(Fraction(half).limit_denominator(4))
+        coefs = []
+        for k in range(GS.N + 2):
+            coefs.append(Fraction(0) if k % 2 else b[k // 2] * (-1) ** (k // 2) * I[k // 2])
+        return GS._compose(coefs, ku)
+    return f
+
+
+T["Fi"]["series"] = _ell_inc_series(-0.5)
+T["Ei2"]["series"] = _ell_inc_series(0.5)
